@@ -264,6 +264,9 @@ def check(ctx):
         if prop == "C05" and n % 5 == 2:
             # a legacy-style configuration that still carries input-named parameters: the stream's rows must win
             fes = [fes[0] + "+stale"] + fes[1:] if ctx.quick else fes + [f + "+stale" for f in fes]
+        if prop == "C05" and n % 5 == 3:
+            # the same stream object and Config object run a second time
+            fes = [fes[0] + "+again"] + fes[1:] if ctx.quick else fes + [f + "+again" for f in fes]
         for fe in fes:
             form = forms[(n + len(fe)) % 3]
             add_run(tb, cfg, fe, "base", form, max_orders)
@@ -287,6 +290,8 @@ def check(ctx):
         ctx.cov["tlc_behaviours_replayed"] = len(sim)
     ctx.cov["real_runs"] = runs
     ctx.cov["frontends"] = fe_all
+    ctx.cov["runs_with_input_named_parameters_in_config"] = sum(1 for e in events if e["ev"] == "load" and e["frontend"].endswith("+stale"))
+    ctx.cov["second_runs_of_the_same_stream_and_config_objects"] = sum(1 for e in events if e["ev"] == "load" and e["frontend"].endswith("+again"))
     rejects = core.validate_parallel(ctx, events, "Trace_Pipeline", "pipe", session_key="grp", chunk=1500)
     by_id = {e["id"]: e for e in events}
     loads = {}
